@@ -52,18 +52,22 @@ structure Fresh (s : Zchd) : Prop where
   caps : s.capsWord = false
 
 /-- What a forming phase starts from: keys already down, erase count and activation history
-accumulated before (all trivial for a chord pressed from a fresh state). -/
+accumulated before (all trivial for a chord pressed from a fresh state), and the follow-up map in
+force with the prior output count kept for it. -/
 structure Phase where
   pre : List Nat
   ctd0 : Int
   prior0 : Option (List ZchOut)
   sh0 : Nat
+  prio0 : Option Path
+  pc0 : Int
 
 /-- While a chord is forming: `pressed` keys have gone down in this phase (all typed as they
 were), `e` ticks have passed since the deadline (re)started and `c` since the last press. -/
 structure Forming (cfg : Cfg) (ph : Phase) (s0 s : Zchd) (pressed : List Nat) (e c : Nat) : Prop where
   en : s.enabledState = .enabled
-  prio : s.prioritized = none
+  prio : s.prioritized = ph.prio0
+  pc : s.priorActivationOutputCount = ph.pc0
   prior : s.priorActivation = ph.prior0
   sh : s.sameHoldActivationCount = ph.sh0
   keys : s.inputKeys = chordKey (ph.pre ++ pressed)
@@ -88,7 +92,7 @@ theorem Forming.tick {cfg : Cfg} {ph : Phase} {s0 s : Zchd} {pressed : List Nat}
     (h : Forming cfg ph s0 s pressed e c) (hc : c < TICKS_UNTIL_FORCE_STATE_RESET)
     (hd : cfg.ticksChordDeadline = 0 ∨ e + 1 < cfg.ticksChordDeadline) :
     Forming cfg ph s0 (s.tick false) pressed (e + 1) (c + 1) := by
-  obtain ⟨en, prio, prior, sh, keys, ctd, lsft, rsft, altgr, caps, ss, tssc, tud⟩ := h
+  obtain ⟨en, prio, pc, prior, sh, keys, ctd, lsft, rsft, altgr, caps, ss, tssc, tud⟩ := h
   have hnr : ¬ (s.ticksSinceStateChange + 1 > TICKS_UNTIL_FORCE_STATE_RESET) := by omega
   rcases tud with ⟨hd0, ht0⟩ | ⟨hlt, ht⟩
   · -- no deadline configured
@@ -96,7 +100,7 @@ theorem Forming.tick {cfg : Cfg} {ph : Phase} {s0 s : Zchd} {pressed : List Nat}
       unfold Zchd.tick Zchd.tickCore
       simp [en, ht0, hnr]
     rw [this]
-    exact ⟨en, prio, prior, sh, keys, ctd, lsft, rsft, altgr, rfl, ss, by simp [tssc], Or.inl ⟨hd0, ht0⟩⟩
+    exact ⟨en, prio, pc, prior, sh, keys, ctd, lsft, rsft, altgr, rfl, ss, by simp [tssc], Or.inl ⟨hd0, ht0⟩⟩
   · have hd' : e + 1 < cfg.ticksChordDeadline := by
       rcases hd with h0 | h1
       · omega
@@ -108,7 +112,7 @@ theorem Forming.tick {cfg : Cfg} {ph : Phase} {s0 s : Zchd} {pressed : List Nat}
       unfold Zchd.tick Zchd.tickCore
       simp [en, hpos, hne, hnr]
     rw [this]
-    exact ⟨en, prio, prior, sh, keys, ctd, lsft, rsft, altgr, rfl, ss, by simp [tssc],
+    exact ⟨en, prio, pc, prior, sh, keys, ctd, lsft, rsft, altgr, rfl, ss, by simp [tssc],
       Or.inr ⟨hd', by simp only [ht]; omega⟩⟩
 
 theorem Forming.ticks {cfg : Cfg} {ph : Phase} {s0 s : Zchd} {pressed : List Nat} {e c : Nat} (g : Nat)
@@ -130,20 +134,20 @@ theorem Forming.ticks {cfg : Cfg} {ph : Phase} {s0 s : Zchd} {pressed : List Nat
 structure ChordKeys (K : Key) : Prop where
   notIgnored : ∀ x ∈ K, isZippyIgnored x = false
 
-/-- A press that leaves the chord incomplete (the lookup answers `IsSubset`). -/
+/-- A press that leaves the chord incomplete (the lookups answer "subset"). -/
 theorem Forming.press {cfg : Cfg} {ph : Phase} {s0 s : Zchd} {pressed : List Nat} {e c : Nat} {b0 b : Buf}
     (h : Forming cfg ph s0 s pressed e c) (hb : BufForming b0 b pressed.length)
     (hne : ssmIsEmpty (levelSsm cfg.dict []) = false) (k : Nat) (hign : isZippyIgnored k = false)
     (hss : s.smartSpaceState = .inactive ∨ cfg.punctuation.contains (puncOf s k) = false)
-    (hl : lookupLevel cfg.dict [] (chordKey (ph.pre ++ (pressed ++ [k]))) = .isSubset) :
+    (hfc : findChordK cfg ph.prio0 (chordKey (ph.pre ++ (pressed ++ [k]))) = .subset) :
     Forming cfg ph s0 (zchPressKey cfg s k).1 (pressed ++ [k]) e 0 ∧
     BufForming b0 (b.run (zchPressKey cfg s k).2) (pressed ++ [k]).length := by
   obtain ⟨_, _, _, hnb, hck⟩ := not_ignored_ne hign
   have hkey : sortedInsert k s.inputKeys = chordKey (ph.pre ++ (pressed ++ [k])) := by
     rw [h.keys, ← List.append_assoc, chordKey_append_single]
-  rw [press_subset cfg s k hne hign h.en h.prio hss (by rw [hkey]; exact hl)]
+  rw [press_subset cfg s k hne hign h.en hss (by rw [hkey, h.prio]; exact hfc)]
   constructor
-  · refine ⟨h.en, h.prio, h.prior, h.sh, by simp [preLookup, hkey], ?_, h.lsft, h.rsft, h.altgr, h.caps,
+  · refine ⟨h.en, h.prio, h.pc, h.prior, h.sh, by simp [preLookup, hkey], ?_, h.lsft, h.rsft, h.altgr, h.caps,
       fun _ => rfl, rfl, ?_⟩
     · simp only [preLookup, h.ctd, List.length_append, List.length_cons, List.length_nil]
       omega
@@ -158,23 +162,34 @@ theorem Forming.press {cfg : Cfg} {ph : Phase} {s0 s : Zchd} {pressed : List Nat
     refine ⟨⟨mkCh k (b.lsft || b.rsft) b.ralt :: L, by simp [hL], ?_⟩, h1, h2, h3⟩
     simp [stroke, hnb, hrt]
 
-/-- the phase of a chord pressed from a fresh state -/
-def freshPhase (s : Zchd) : Phase := ⟨[], 0, none, s.sameHoldActivationCount⟩
+/-- Nothing held, no deadline running: a chord can start (from the initial state, after a chord
+without follow-ups was released, or — with a follow-up map in force — after a chord of a chain was
+released). -/
+structure Idle (s : Zchd) : Prop where
+  en : s.enabledState = .enabled
+  keys : s.inputKeys = []
+  ctd : s.charsToDelete = 0
+  tud : s.ticksUntilDisable = 0
+  caps : s.capsWord = false
 
-/-- The first press, from a fresh state. -/
-theorem Fresh.press {cfg : Cfg} {s : Zchd} {b : Buf}
-    (h : Fresh s) (hne : ssmIsEmpty (levelSsm cfg.dict []) = false) (k : Nat)
+/-- the phase of a chord pressed from an idle state -/
+def idlePhase (s : Zchd) : Phase :=
+  ⟨[], 0, s.priorActivation, s.sameHoldActivationCount, s.prioritized, s.priorActivationOutputCount⟩
+
+/-- The first press, from an idle state. -/
+theorem Idle.press {cfg : Cfg} {s : Zchd} {b : Buf}
+    (h : Idle s) (hne : ssmIsEmpty (levelSsm cfg.dict []) = false) (k : Nat)
     (hign : isZippyIgnored k = false)
     (hss : s.smartSpaceState = .inactive ∨ cfg.punctuation.contains (puncOf s k) = false)
-    (hl : lookupLevel cfg.dict [] (chordKey [k]) = .isSubset) :
-    Forming cfg (freshPhase s) s (zchPressKey cfg s k).1 [k] 0 0 ∧
+    (hfc : findChordK cfg s.prioritized (chordKey [k]) = .subset) :
+    Forming cfg (idlePhase s) s (zchPressKey cfg s k).1 [k] 0 0 ∧
     BufForming b (b.run (zchPressKey cfg s k).2) 1 := by
   obtain ⟨_, _, _, hnb, hck⟩ := not_ignored_ne hign
   have hkey : sortedInsert k s.inputKeys = chordKey [k] := by
     rw [h.keys]; rfl
-  rw [press_subset cfg s k hne hign h.en h.prio hss (by rw [hkey]; exact hl)]
+  rw [press_subset cfg s k hne hign h.en hss (by rw [hkey]; exact hfc)]
   constructor
-  · refine ⟨h.en, h.prio, h.prior, rfl, by simp [preLookup, hkey, freshPhase], by simp [preLookup, h.ctd, freshPhase],
+  · refine ⟨h.en, rfl, rfl, rfl, rfl, by simp [preLookup, hkey, idlePhase], by simp [preLookup, h.ctd, idlePhase],
       rfl, rfl, rfl, h.caps, fun _ => rfl, rfl, ?_⟩
     simp only [preLookup, h.tud, if_true]
     by_cases hd : cfg.ticksChordDeadline = 0
@@ -189,7 +204,7 @@ theorem zRun_pressTicks (cfg : Cfg) (s : Zchd) (k g : Nat) :
   simp [pressTicks, zRun, zStep, zRun_ticks]
 
 /-- All presses but the last one, each followed by its ticks: as long as every key set reached on
-the way is a proper part of some chord (the lookup answers `IsSubset`), each press types its key and
+the way is a proper part of some chord (the lookups answer "subset"), each press types its key and
 the invariant is kept. -/
 theorem forming_rest {cfg : Cfg} {ph : Phase} {s0 : Zchd} {b0 : Buf}
     (hne : ssmIsEmpty (levelSsm cfg.dict []) = false) (rest : List (Nat × Nat)) :
@@ -199,7 +214,7 @@ theorem forming_rest {cfg : Cfg} {ph : Phase} {s0 : Zchd} {b0 : Buf}
       (pressed = [] → (s.smartSpaceState = .inactive ∨
         ∀ kg ∈ rest, cfg.punctuation.contains (puncOf s0 kg.1) = false)) →
       (∀ ks, ks ≠ [] → ks <+: rest.map (·.1) →
-        lookupLevel cfg.dict [] (chordKey (ph.pre ++ (pressed ++ ks))) = .isSubset) →
+        findChordK cfg ph.prio0 (chordKey (ph.pre ++ (pressed ++ ks))) = .subset) →
       (∀ kg ∈ rest, kg.2 ≤ TICKS_UNTIL_FORCE_STATE_RESET) →
       (cfg.ticksChordDeadline = 0 ∨ e + (rest.map (·.2)).sum < cfg.ticksChordDeadline) →
       ∃ e' c', Forming cfg ph s0 (zRun cfg s (chordHist rest)).1 (pressed ++ rest.map (·.1)) e' c' ∧
@@ -241,7 +256,8 @@ theorem forming_rest {cfg : Cfg} {ph : Phase} {s0 : Zchd} {b0 : Buf}
 /-- What the completing press needs of the state. -/
 structure Ready (ph : Phase) (s0 s : Zchd) (pressed : List Nat) : Prop where
   en : s.enabledState = .enabled
-  prio : s.prioritized = none
+  prio : s.prioritized = ph.prio0
+  pc : s.priorActivationOutputCount = ph.pc0
   prior : s.priorActivation = ph.prior0
   sh : s.sameHoldActivationCount = ph.sh0
   keys : s.inputKeys = chordKey (ph.pre ++ pressed)
@@ -251,60 +267,72 @@ structure Ready (ph : Phase) (s0 s : Zchd) (pressed : List Nat) : Prop where
   altgr : s.altgr = s0.altgr
   caps : s.capsWord = false
 
-theorem Fresh.ready {s : Zchd} (h : Fresh s) : Ready (freshPhase s) s s [] :=
-  ⟨h.en, h.prio, h.prior, rfl, h.keys, by simp [h.ctd, freshPhase], rfl, rfl, rfl, h.caps⟩
+theorem Idle.ready {s : Zchd} (h : Idle s) : Ready (idlePhase s) s s [] :=
+  ⟨h.en, rfl, rfl, rfl, rfl, h.keys, by simp [h.ctd, idlePhase], rfl, rfl, rfl, h.caps⟩
 
 theorem Forming.ready {cfg : Cfg} {ph : Phase} {s0 s : Zchd} {pressed : List Nat} {e c : Nat}
     (h : Forming cfg ph s0 s pressed e c) : Ready ph s0 s pressed :=
-  ⟨h.en, h.prio, h.prior, h.sh, h.keys, h.ctd, h.lsft, h.rsft, h.altgr, h.caps⟩
+  ⟨h.en, h.prio, h.pc, h.prior, h.sh, h.keys, h.ctd, h.lsft, h.rsft, h.altgr, h.caps⟩
 
 /-- The smart space an activation appends. -/
 def withSmartSpace (cfg : Cfg) (out : List ZchOut) (rt : List Ch) : List Ch :=
   if wantsSmartSpace cfg out then stroke rt KEY_SPACE false false else rt
 
 /-- the common-prefix length the completing press of a phase uses -/
-def phaseCpl (ph : Phase) (out : List ZchOut) : Nat :=
-  if ph.sh0 = 0 then 0 else match ph.prior0 with
+def phaseCpl (ph : Phase) (out : List ZchOut) (isPrio : Bool) : Nat :=
+  if isPrio = false ∧ ph.sh0 = 0 then 0 else match ph.prior0 with
     | some prior => commonPrefixLen prior out
     | none => 0
 
-/-- The completing press (top-level chord found, no follow-up map in the way): the erase count minus
-the shared prefix is sent as backspaces, the rest of the expansion is typed (its first keystroke
-under the user's shift), the smart space is added, and the modifiers are as they were. -/
+/-- the number of backspaces the completing press of a phase sends -/
+def phaseBs (ph : Phase) (n : Nat) (out : List ZchOut) (isPrio : Bool) : Nat :=
+  (ph.ctd0 + n + (if isPrio then ph.pc0 else 0) - (phaseCpl ph out isPrio : Int)).toNat
+
+theorem actCpl_phase {cfg : Cfg} {ph : Phase} {s0 s : Zchd} {pressed : List Nat} (hr : Ready ph s0 s pressed)
+    (k : Nat) (out : List ZchOut) (isPrio : Bool) :
+    actCpl (preLookup cfg s k) out isPrio = phaseCpl ph out isPrio := by
+  unfold actCpl phaseCpl
+  cases isPrio
+  · by_cases h0 : ph.sh0 = 0
+    · simp [preLookup, hr.sh, h0]
+    · simp only [preLookup, hr.prior, hr.sh, h0, Bool.not_false, Bool.true_and, decide_false,
+        Bool.false_eq_true, if_false, and_false]
+      cases ph.prior0 <;> rfl
+  · simp only [preLookup, hr.prior, Bool.not_true, Bool.false_and, Bool.false_eq_true, if_false,
+      false_and]
+    cases ph.prior0 <;> rfl
+
+/-- The completing press: the erase count (plus, for a follow-up, the prior output count) minus the
+shared prefix is sent as backspaces, the rest of the expansion is typed — its first keystroke under
+the user's shift when it is the first character of the expansion — the smart space is added, and
+the modifiers are as they were. -/
 theorem final_press {cfg : Cfg} {ph : Phase} {s0 s : Zchd} {b0 b : Buf} {out : List ZchOut}
     {pressed : List Nat} (hr : Ready ph s0 s pressed) (hb : BufForming b0 b pressed.length)
     (hm0 : ModsAgree s0 b0) (hne' : ssmIsEmpty (levelSsm cfg.dict []) = false) (last : Nat)
-    (hign : isZippyIgnored last = false)
-    (hl : lookupLevel cfg.dict [] (chordKey (ph.pre ++ (pressed ++ [last]))) = .hasValue out)
+    (hign : isZippyIgnored last = false) (ctx : Path) (isPrio : Bool)
+    (hfc : (findChordK cfg ph.prio0 (chordKey (ph.pre ++ (pressed ++ [last])))).act = some (ctx, out, isPrio))
     (hss : s.smartSpaceState = .inactive ∨ cfg.punctuation.contains (puncOf s last) = false)
     (hne : out.isEmpty = false) (hko : ∀ o ∈ out, CharKey o.osc) :
     (b.run (zchPressKey cfg s last).2).rtext =
-        withSmartSpace cfg out (typeOuts (b.rtext.drop (ph.ctd0 + pressed.length - (phaseCpl ph out : Int)).toNat)
-          (s0.lsft || s0.rsft) (out.drop (phaseCpl ph out))) ∧
+        withSmartSpace cfg out (typeOuts (b.rtext.drop (phaseBs ph pressed.length out isPrio))
+          ((s0.lsft || s0.rsft) && decide (phaseCpl ph out isPrio = 0)) (out.drop (phaseCpl ph out isPrio))) ∧
     ModsAgree s0 (b.run (zchPressKey cfg s last).2) ∧
     (zchPressKey cfg s last).1.lastPress = .isChord ∧
     (zchPressKey cfg s last).1.inputKeys = chordKey (ph.pre ++ (pressed ++ [last])) := by
   have hkey : sortedInsert last s.inputKeys = chordKey (ph.pre ++ (pressed ++ [last])) := by
     rw [hr.keys, ← List.append_assoc, chordKey_append_single]
-  rw [press_full cfg s last out hne' hign hr.en hr.prio hss (by rw [hkey]; exact hl)]
+  rw [press_found cfg s last out ctx isPrio hne' hign hr.en hss (by rw [hkey, hr.prio]; exact hfc)]
   have hm : ModsAgree (preLookup cfg s last) b := by
     obtain ⟨h1, h2, h3⟩ := hm0
     exact ⟨by simp [preLookup, hb.lsft, h1, hr.lsft], by simp [preLookup, hb.rsft, h2, hr.rsft],
       by simp [preLookup, hb.ralt, h3, hr.altgr]⟩
-  obtain ⟨hmods, htext⟩ := run_activate cfg (preLookup cfg s last) last out [] false b hne hko hm
-  have hcpl : actCpl (preLookup cfg s last) out false = phaseCpl ph out := by
-    unfold actCpl phaseCpl
-    by_cases h0 : ph.sh0 = 0
-    · simp [preLookup, hr.sh, h0]
-    · simp only [preLookup, hr.prior, hr.sh, h0, Bool.not_false, Bool.true_and, decide_false,
-        Bool.false_eq_true, if_false]
-      cases ph.prior0 <;> rfl
-  have hbs : actBs (preLookup cfg s last) out false =
-      (ph.ctd0 + pressed.length - (phaseCpl ph out : Int)).toNat := by
-    unfold actBs
+  obtain ⟨hmods, htext⟩ := run_activate cfg (preLookup cfg s last) last out ctx isPrio b hne hko hm
+  have hcpl := actCpl_phase (cfg := cfg) hr last out isPrio
+  have hbs : actBs (preLookup cfg s last) out isPrio = phaseBs ph pressed.length out isPrio := by
+    unfold actBs phaseBs
     rw [hcpl]
-    simp [preLookup, hr.ctd]
-  have hflags := activate_flags cfg (preLookup cfg s last) last out [] false
+    simp [preLookup, hr.ctd, hr.pc]
+  have hflags := activate_flags cfg (preLookup cfg s last) last out ctx isPrio
   refine ⟨?_, ?_, hflags.2.2.2.2.2.2, ?_⟩
   · rw [htext (by simp [preLookup, hr.caps])]
     simp only [hcpl, hbs, withSmartSpace]
@@ -315,46 +343,45 @@ theorem final_press {cfg : Cfg} {ph : Phase} {s0 s : Zchd} {b0 b : Buf} {out : L
   · rw [hflags.2.2.2.2.1]; simp [preLookup, hkey]
 
 /-- the phase that starts after a chord has been activated and is still held -/
-def postPhase (ph : Phase) (cfg : Cfg) (keys : List Nat) (out : List ZchOut) : Phase :=
-  ⟨keys, displayLen (out.drop (phaseCpl ph out)) + (if wantsSmartSpace cfg out then 1 else 0), some out, ph.sh0 + 1⟩
+def postPhase (ph : Phase) (cfg : Cfg) (keys : List Nat) (out : List ZchOut) (ctx : Path) : Phase :=
+  ⟨keys, displayLen out + (if wantsSmartSpace cfg out then 1 else 0), some out, ph.sh0 + 1,
+   if hasFollowups cfg.dict (ctx ++ [chordKey keys]) then some (ctx ++ [chordKey keys]) else none,
+   displayLen out + (if wantsSmartSpace cfg out then 1 else 0)⟩
 
-/-- The state after the completing press, when the chord has no follow-ups: ready for further keys
-of a longer chord (the deadline has restarted). -/
+/-- The state after the completing press: ready for further keys of a longer chord (the deadline
+has restarted), or for the release. -/
 theorem final_press_post {cfg : Cfg} {ph : Phase} {s0 s : Zchd} {out : List ZchOut}
     {pressed : List Nat} (hr : Ready ph s0 s pressed)
     (hne' : ssmIsEmpty (levelSsm cfg.dict []) = false) (last : Nat)
-    (hign : isZippyIgnored last = false)
-    (hl : lookupLevel cfg.dict [] (chordKey (ph.pre ++ (pressed ++ [last]))) = .hasValue out)
+    (hign : isZippyIgnored last = false) (ctx : Path) (isPrio : Bool)
+    (hfc : (findChordK cfg ph.prio0 (chordKey (ph.pre ++ (pressed ++ [last])))).act = some (ctx, out, isPrio))
     (hss : s.smartSpaceState = .inactive ∨ cfg.punctuation.contains (puncOf s last) = false)
-    (hne : out.isEmpty = false)
-    (hnf : hasFollowups cfg.dict [chordKey (ph.pre ++ (pressed ++ [last]))] = false) :
-    Forming cfg (postPhase ph cfg (ph.pre ++ (pressed ++ [last])) out) s0 (zchPressKey cfg s last).1 [] 0 0 := by
+    (hne : out.isEmpty = false) :
+    Forming cfg (postPhase ph cfg (ph.pre ++ (pressed ++ [last])) out ctx) s0 (zchPressKey cfg s last).1 [] 0 0 ∧
+    (zchPressKey cfg s last).1.smartSpaceState =
+      (if wantsSmartSpace cfg out = true ∧ cfg.smartSpace = .full then .sent else .inactive) := by
   have hkey : sortedInsert last s.inputKeys = chordKey (ph.pre ++ (pressed ++ [last])) := by
     rw [hr.keys, ← List.append_assoc, chordKey_append_single]
-  rw [press_full cfg s last out hne' hign hr.en hr.prio hss (by rw [hkey]; exact hl)]
-  have hfl := activate_flags cfg (preLookup cfg s last) last out [] false
-  have hst := activate_state cfg (preLookup cfg s last) last out hne
-  have hcpl : actCpl (preLookup cfg s last) out false = phaseCpl ph out := by
-    unfold actCpl phaseCpl
-    by_cases h0 : ph.sh0 = 0
-    · simp [preLookup, hr.sh, h0]
-    · simp only [preLookup, hr.prior, hr.sh, h0, Bool.not_false, Bool.true_and, decide_false,
-        Bool.false_eq_true, if_false]
-      cases ph.prior0 <;> rfl
+  rw [press_found cfg s last out ctx isPrio hne' hign hr.en hss (by rw [hkey, hr.prio]; exact hfc)]
+  have hfl := activate_flags cfg (preLookup cfg s last) last out ctx isPrio
+  have hst := activate_state cfg (preLookup cfg s last) last out ctx isPrio hne
   have hik : (preLookup cfg s last).inputKeys = chordKey (ph.pre ++ (pressed ++ [last])) := by
     simp [preLookup, hkey]
-  refine ⟨?_, ?_, hst.2.1, ?_, ?_, ?_, ?_, ?_, ?_, ?_, fun h => absurd rfl h, ?_, ?_⟩
+  refine ⟨⟨?_, ?_, ?_, hst.2.1, ?_, ?_, ?_, ?_, ?_, ?_, ?_, fun h => absurd rfl h, ?_, ?_⟩, ?_⟩
+  rotate_right
+  · rw [hst.2.2.2.2.2.2.2]; rfl
   · rw [hfl.2.2.2.2.2.1]; simp [preLookup, hr.en]
-  · rw [hst.1, hik, hnf]; rfl
+  · rw [hst.1, hik]; rfl
+  · rw [hst.2.2.2.2.1]; rfl
   · rw [hst.2.2.1]; simp [preLookup, hr.sh, postPhase]
   · rw [hfl.2.2.2.2.1, hik]; simp [postPhase]
-  · rw [hst.2.2.2.1, hcpl]; simp [postPhase]
+  · rw [hst.2.2.2.1]; simp [postPhase]
   · rw [hfl.1]; simp [preLookup, hr.lsft]
   · rw [hfl.2.1]; simp [preLookup, hr.rsft]
   · rw [hfl.2.2.1]; simp [preLookup, hr.altgr]
   · rw [hfl.2.2.2.1]; simp [preLookup, hr.caps]
-  · rw [hst.2.2.2.2.1]; simp [preLookup]
-  · rw [hst.2.2.2.2.2]
+  · rw [hst.2.2.2.2.2.1]; simp [preLookup]
+  · rw [hst.2.2.2.2.2.2.1]
     by_cases hd : cfg.ticksChordDeadline = 0
     · exact Or.inl ⟨hd, hd⟩
     · exact Or.inr ⟨by omega, by simp⟩
